@@ -132,11 +132,11 @@ Definition c_heap (i : nat) (g : gstate) : hstore := g_hp g i.
 Definition own_only (ws : list (wtarget * Z)) : Prop :=
   forall t v, In (t, v) ws -> exists a, t = WOwn a.
 
-Lemma audit_no_writable : forall vars fields calls copies cfields,
-  audit vars fields calls copies cfields = true -> forall w, runtime_writable vars fields w = false.
+Lemma audit_no_writable : forall vars fields calls copies cfields closures,
+  audit vars fields calls copies cfields closures = true -> forall w, runtime_writable vars fields w = false.
 Proof.
-  intros vars fields calls copies cfields A w. unfold audit in A.
-  apply andb_prop in A as [A _]. apply andb_prop in A as [A _]. apply andb_prop in A as [A _]. apply andb_prop in A as [AV AF].
+  intros vars fields calls copies cfields closures A w. unfold audit in A.
+  apply andb_prop in A as [A _]. apply andb_prop in A as [A _]. apply andb_prop in A as [A _]. apply andb_prop in A as [A _]. apply andb_prop in A as [AV AF].
   unfold runtime_writable. apply orb_false_intro.
   - rewrite forallb_forall in AV.
     destruct (existsb _ vars) eqn:E; auto. apply existsb_exists in E as (v & IN & H).
@@ -146,13 +146,13 @@ Proof.
     apply andb_prop in H as [_ H]. rewrite (AF f IN) in H. discriminate.
 Qed.
 
-Lemma conforming_own_only : forall vars fields calls copies cfields beh,
-  audit vars fields calls copies cfields = true -> conforming vars fields beh ->
+Lemma conforming_own_only : forall vars fields calls copies cfields closures beh,
+  audit vars fields calls copies cfields closures = true -> conforming vars fields beh ->
   forall i s h, own_only (fst (beh i s h)).
 Proof.
-  intros vars fields calls copies cfields beh A [CW _] i s h t v IN.
+  intros vars fields calls copies cfields closures beh A [CW _] i s h t v IN.
   destruct t as [a|w]; [eauto|].
-  apply CW in IN. rewrite (audit_no_writable _ _ _ _ _ A) in IN. discriminate.
+  apply CW in IN. rewrite (audit_no_writable _ _ _ _ _ _ A) in IN. discriminate.
 Qed.
 
 Lemma apply_own_shared : forall i ws g, own_only ws -> g_sh (apply_writes i ws g) = g_sh g.
@@ -181,12 +181,12 @@ Proof.
   - simpl. rewrite Nat.eqb_refl. intro x. unfold upd_h. destruct (Z.eqb x a); auto.
 Qed.
 
-Lemma conforming_local : forall vars fields calls copies cfields beh,
-  audit vars fields calls copies cfields = true -> conforming vars fields beh ->
+Lemma conforming_local : forall vars fields calls copies cfields closures beh,
+  audit vars fields calls copies cfields closures = true -> conforming vars fields beh ->
   local eq_s eq_h c_shared c_heap (cstep beh).
 Proof.
-  intros vars fields calls copies cfields beh A C.
-  pose proof (conforming_own_only _ _ _ _ _ _ A C) as O.
+  intros vars fields calls copies cfields closures beh A C.
+  pose proof (conforming_own_only _ _ _ _ _ _ _ A C) as O.
   destruct C as [_ EXT].
   split; unfold c_shared, c_heap, cstep; simpl.
   - intros i g w. rewrite apply_own_shared; auto.
@@ -198,14 +198,14 @@ Qed.
 
 (* ---- the regenerated table passes the audit (exhaustive, by computation) ---- *)
 
-Lemma no_runtime_writes : audit pkg_vars struct_fields call_edges struct_copies clone_fields = true.
+Lemma no_runtime_writes : audit pkg_vars struct_fields call_edges struct_copies clone_fields native_closures = true.
 Proof. vm_compute. reflexivity. Qed.
 
-Lemma table_is_sane : table_sane pkg_vars struct_fields call_edges struct_copies clone_fields translator_type_errors = true.
+Lemma table_is_sane : table_sane pkg_vars struct_fields call_edges struct_copies clone_fields native_closures translator_type_errors = true.
 Proof. vm_compute. reflexivity. Qed.
 
 Lemma no_shared_location_writable : forall w, runtime_writable pkg_vars struct_fields w = false.
-Proof. exact (audit_no_writable _ _ _ _ _ no_runtime_writes). Qed.
+Proof. exact (audit_no_writable _ _ _ _ _ _ no_runtime_writes). Qed.
 
 (* ---- the theorems of Properties/C20.v for otto's table ---- *)
 
@@ -213,7 +213,7 @@ Section Otto.
   Variable beh : behaviour.
   Hypothesis C : conforming pkg_vars struct_fields beh.
 
-  Let L := conforming_local _ _ _ _ _ _ no_runtime_writes C.
+  Let L := conforming_local _ _ _ _ _ _ _ no_runtime_writes C.
 
   Lemma otto_interleaving : forall sched g i,
     proj i (snd (run (cstep beh) sched g)) = proj i (snd (solo (cstep beh) i (steps_of i sched) g)) /\
